@@ -21,6 +21,7 @@ import os
 import re
 import shutil
 import subprocess
+import sys
 import time
 
 VERIF = os.path.dirname(os.path.dirname(os.path.abspath(__file__)))
@@ -61,8 +62,14 @@ def strip_instrument(text):
 
 def load_injections():
     inj = []
-    for p in sorted(glob.glob(os.path.join(VERIF, 'kani', '**', '*.inject.rs'), recursive=True)):
-        txt = open(p).read()
+    files = [(p, None) for p in sorted(glob.glob(os.path.join(VERIF, 'kani', '**', '*.inject.rs'), recursive=True))]
+    for g in sorted(glob.glob(os.path.join(VERIF, 'kani', '**', '*.inject.py'), recursive=True)):
+        pr = subprocess.run([sys.executable, g], stdout=subprocess.PIPE, stderr=subprocess.PIPE, text=True, env=dict(os.environ, VERIF_REPO=REPO))
+        if pr.returncode != 0:
+            raise KaniLimit('harness generator %s failed: %s' % (g, pr.stderr[-500:]))
+        files.append((g, pr.stdout))
+    for p, gen_txt in files:
+        txt = gen_txt if gen_txt is not None else open(p).read()
         m = re.search(r'^//@target\s+(\S+)', txt, re.M)
         c = re.search(r'^//@crate\s+(\S+)', txt, re.M)
         if not m or not c:
@@ -265,10 +272,11 @@ def witness(harness, crate, timeout=900):
     cmd = ['cargo', 'kani', '-p', crate, '-Z', 'function-contracts', '-Z', 'stubbing', '-Z', 'concrete-playback', '--concrete-playback=print',
            '--output-format', 'terse', '--harness', harness, '--target-dir', TARGET]
     p = subprocess.run(cmd, cwd=WS, env=_env(), stdout=subprocess.PIPE, stderr=subprocess.STDOUT, text=True, timeout=timeout)
-    m = re.search(r'```\s*\n(#\[test\].*?)```', p.stdout, re.S)
+    m = re.search(r'```\s*\n((?:(?!```).)*?#\[test\].*?)```', p.stdout, re.S)
     if not m:
         return {'error': 'kani printed no concrete playback test', 'cmd': ' '.join(cmd)}
     test = m.group(1)
+    test = test[test.index('#[test]'):]
     vals = [[int(x) for x in v.split(',') if x.strip()] for v in re.findall(r'vec!\[([0-9, ]*)\]', test)]
     return {'test': test, 'values': vals[1:] if vals and not vals[0] else vals, 'cmd': ' '.join(cmd)}
 
@@ -310,3 +318,20 @@ def playback(harness, test_text, timeout=1200):
         ran = 'running 1 test' in out
         prepare()  # restore
         return reproduced, ran, out[-4000:], ' '.join(cmd)
+
+
+if __name__ == '__main__':
+    # kx.py run <harness>... | list
+    if sys.argv[1] == 'list':
+        for h, kv in sorted(harness_table().items()):
+            print(h, kv.get('mode'), kv.get('crate'), kv.get('bound', ''))
+    else:
+        names = sys.argv[2:]
+        if names == ['ALL']:
+            names = sorted(harness_table())
+        elif len(names) == 1 and names[0].endswith('*'):
+            names = sorted(h for h in harness_table() if h.startswith(names[0][:-1]))
+        for r in run_harnesses(names):
+            print(r['name'], r['status'], '%.1fs' % r['time_s'], r.get('failed', ''))
+            if r.get('witness'):
+                print('   witness values:', str(r['witness'].get('values'))[:300], r['witness'].get('error', ''))
